@@ -1,0 +1,73 @@
+//go:build verif
+
+// Contracts for govc (contract-based deductive verification, see /verif/DESIGN.md).
+// This file contains comments only; it is compiled only with -tags=verif and adds no code.
+
+package action
+
+//@ package action
+//@
+//@ # Equality of actions as values (C04: "two different actions")
+//@ spec sameAct(a Action, b Action) bool = (typeis(a, Accept) && typeis(b, Accept)) || (typeis(a, Error) && typeis(b, Error))
+//@   | || (typeis(a, Reduce) && typeis(b, Reduce) && as(a, Reduce) == as(b, Reduce)) || (typeis(a, Shift) && typeis(b, Shift) && as(a, Shift) == as(b, Shift))
+//@ spec isAct(a Action) bool = typeis(a, Accept) || typeis(a, Error) || typeis(a, Reduce) || typeis(a, Shift)
+//@
+//@ func (Accept).Equal
+//@   prop C04 C05
+//@   ensures [eq] result == typeis(act, Accept)
+//@   assigns nothing
+//@
+//@ func (Error).Equal
+//@   prop C04 C05
+//@   ensures [eq] result == typeis(act, Error)
+//@   assigns nothing
+//@
+//@ func (Reduce).Equal
+//@   prop C04 C05
+//@   ensures [eq] result == (typeis(act, Reduce) && as(act, Reduce) == this)
+//@   assigns nothing
+//@
+//@ func (Shift).Equal
+//@   prop C04 C05
+//@   ensures [eq] result == (typeis(act, Shift) && as(act, Shift) == this)
+//@   assigns nothing
+//@
+//@ # C05: shift beats reduce, the lower production index beats the higher, "no action" is neutral;
+//@ # C04: a conflict involving accept is refused (panic) in both modes.
+//@ func (Accept).ResolveConflict
+//@   prop C04 C05
+//@   panics [accept-conflict] !typeis(that, Error)
+//@   ensures [keep] result == iface(this)
+//@   assigns nothing
+//@
+//@ func (Error).ResolveConflict
+//@   prop C05
+//@   ensures [neutral] result == that
+//@   assigns nothing
+//@
+//@ func (Shift).ResolveConflict
+//@   prop C05 C04
+//@   panics [impossible] !(typeis(that, Error) || typeis(that, Reduce))
+//@   ensures [shift-wins] result == iface(this)
+//@   assigns nothing
+//@
+//@ func (Reduce).ResolveConflict
+//@   prop C05 C04
+//@   panics [impossible] !(typeis(that, Error) || typeis(that, Reduce) || typeis(that, Shift))
+//@   ensures [shift-wins] imp(typeis(that, Shift), result == that)
+//@   ensures [neutral] imp(typeis(that, Error), result == iface(this))
+//@   ensures [earliest] imp(typeis(that, Reduce), result == iface(Reduce(ite(this < as(that, Reduce), this, as(that, Reduce)))))
+//@   assigns nothing
+//@
+//@ func (Accept).String
+//@   trusted
+//@   assigns nothing
+//@ func (Error).String
+//@   trusted
+//@   assigns nothing
+//@ func (Reduce).String
+//@   trusted
+//@   assigns nothing
+//@ func (Shift).String
+//@   trusted
+//@   assigns nothing
